@@ -146,6 +146,46 @@ template<class T> static void run_segment(vt::Rng& g, long seg, long events, lon
   };
   mk(0); mk(1);
   auto pickc = [&]() { for (int t = 0; t < 20; t++) { int c = (int)g.below(NC); if (cv[c]) return c; } return -1; };
+  auto upd = [&](int i, const ti::Item& it, int v) {
+    typename T::Update& s = *sk[i];
+    uint64_t h = 0; bool counted = ti::theta_hash(it, sd, h);
+    if (it.type == 11) { T::update_raw(s, it.sv.data(), it.sv.size(), v, nv); th[i]->update(it.sv.data(), it.sv.size()); }
+    else ti::dispatch(it, [&](const auto& key) { T::update(s, key, v, nv); th[i]->update(key); });
+    Ev e(counted ? "Update" : "UpdateIgnored");
+    e.i("id", i).str("type", ti::TYPES[it.type]);
+    if (counted) e.h("hH", h).i("val", v);
+    e.h("thetaH", s.get_theta64()).i("n", s.get_num_retained()).b("empty", s.is_empty())
+     .h("thetaT", th[i]->get_theta64()).i("nT", th[i]->get_num_retained()).emit();
+  };
+  if (seg % 2 == 0) {
+    // directed: a union whose OWN table rebuilt (more distinct keys than 15/8 of its nominal size), result, reset(),
+    // then a second use with a few keys: the second result must not remember anything of the first
+    const uint8_t ulgk = 5;
+    un[0].reset(new typename T::Union(T::make_union(ulgk, (resize_factor)g.below(4), 1.0f, sd, nv)));
+    Ev("UNew").i("u", 0).i("k", 1L << ulgk).h("startH", MAXT).emit();
+    long key = 100000 + 1000 * (long)g.below(50);
+    for (int round = 0; round < 3; round++) {
+      for (int j = 0; j < 28 + 4 * round; j++) { ti::Item it; it.type = 1; it.iv = key++; it.dv = 0; upd(0, it, (int)g.range(1, 5)); }
+      cv[0].reset(new typename T::Compact(sk[0]->compact(round % 2 == 0)));
+      Ev("Compact").i("src", 0).i("dst", 0).b("ordered", round % 2 == 0).raw("r", proj<T>(*cv[0])).emit();
+      un[0]->update(*cv[0]);
+      Ev("UUpdate").i("u", 0).b("fromUpdate", false).i("src", 0).b("rvalue", false).emit();
+      sk[0]->reset(); th[0]->reset();
+      Ev("Reset").i("id", 0).h("thetaH", sk[0]->get_theta64()).i("n", sk[0]->get_num_retained()).b("empty", sk[0]->is_empty()).emit();
+    }
+    cv[1].reset(new typename T::Compact(un[0]->get_result(true)));
+    Ev("UResult").i("u", 0).b("ordered", true).i("dst", 1).raw("r", proj<T>(*cv[1])).emit();
+    un[0]->reset(); Ev("UReset").i("u", 0).emit();
+    cv[2].reset(new typename T::Compact(un[0]->get_result(false)));
+    Ev("UResult").i("u", 0).b("ordered", false).i("dst", 2).raw("r", proj<T>(*cv[2])).emit();
+    for (int j = 0; j < 9; j++) { ti::Item it; it.type = 1; it.iv = key++; it.dv = 0; upd(0, it, (int)g.range(1, 5)); }
+    cv[0].reset(new typename T::Compact(sk[0]->compact(false)));
+    Ev("Compact").i("src", 0).i("dst", 0).b("ordered", false).raw("r", proj<T>(*cv[0])).emit();
+    un[0]->update(*cv[0]);
+    Ev("UUpdate").i("u", 0).b("fromUpdate", false).i("src", 0).b("rvalue", false).emit();
+    cv[3].reset(new typename T::Compact(un[0]->get_result(true)));
+    Ev("UResult").i("u", 0).b("ordered", true).i("dst", 3).raw("r", proj<T>(*cv[3])).emit();
+  }
   for (long n = 0; n < events; n++) {
     int i = (int)g.below(NS);
     typename T::Update& s = *sk[i];
@@ -154,15 +194,7 @@ template<class T> static void run_segment(vt::Rng& g, long seg, long events, lon
     if (op >= base) {
       ti::Item it = ti::draw(g, wide);
       if (g.chance(60)) { it.type = 1; it.iv = g.range(0, wide); }   // mostly a compact int domain: repeated keys accumulate values
-      int v = (int)g.range(1, 5);
-      uint64_t h = 0; bool counted = ti::theta_hash(it, sd, h);
-      if (it.type == 11) { T::update_raw(s, it.sv.data(), it.sv.size(), v, nv); th[i]->update(it.sv.data(), it.sv.size()); }
-      else ti::dispatch(it, [&](const auto& key) { T::update(s, key, v, nv); th[i]->update(key); });
-      Ev e(counted ? "Update" : "UpdateIgnored");
-      e.i("id", i).str("type", ti::TYPES[it.type]);
-      if (counted) e.h("hH", h).i("val", v);
-      e.h("thetaH", s.get_theta64()).i("n", s.get_num_retained()).b("empty", s.is_empty())
-       .h("thetaT", th[i]->get_theta64()).i("nT", th[i]->get_num_retained()).emit();
+      upd(i, it, (int)g.range(1, 5));
       continue;
     }
     if (op < 2) {
